@@ -334,6 +334,7 @@ var alphaDur = []hx.Op{
 	{K: "batch", Big: true, Sub: sub(hx.Op{K: "set", Key: "a"}, hx.Op{K: "set", Key: "c"})},
 	{K: "excise", Key: "a", End: "b"},
 	{K: "rkset", Key: "a", End: "c", Suf: "@1", Sync: true},
+	{K: "rkset", Key: "a", End: "c", Suf: "@1"}, // unsynced range key
 }
 
 func runDurable(c *vlib.Ctx, cfg hx.Config, hist []hx.Op, verbose bool) {
@@ -350,6 +351,9 @@ func runDurable(c *vlib.Ctx, cfg hx.Config, hist []hx.Op, verbose bool) {
 		if !m.Legal(op) {
 			c.Outcome("skipped-outside-contract")
 			return
+		}
+		if cfg.DisableWAL {
+			op.Sync = false // a Sync commit is an error without a WAL
 		}
 		if err := x.Apply(i+1, op); err != nil {
 			c.Violation("op-error", fmt.Sprintf("hist=[%s] op %d: %v", hx.HistString(hist), i+1, err), durCase{cfg, hist})
@@ -369,7 +373,7 @@ func runDurable(c *vlib.Ctx, cfg hx.Config, hist []hx.Op, verbose bool) {
 		for v := it.First(); v; v = it.Next() {
 			hp, hr := it.HasPointAndRange()
 			if hp {
-				pts = append(pts, hx.KV{K: string(it.Key()), V: string(it.Value())})
+				pts = append(pts, hx.KV{K: string(it.Key()), V: hx.Val(it.Value())})
 			}
 			if hr && it.RangeKeyChanged() {
 				s, e := it.RangeBounds()
@@ -451,9 +455,10 @@ func checkDurable(c *vlib.Ctx) {
 		k   int
 		d   int
 	}
-	plans := []plan{{hx.Config{Name: "base"}, len(alphaDur), 3}, {hx.Config{Name: "tinymem", MemTableSize: 16 << 10}, len(alphaDur), 2}, {hx.Config{Name: "base"}, 6, 4}}
+	nowal := hx.Config{Name: "nowal", DisableWAL: true} // without a WAL only flushed data is durable
+	plans := []plan{{hx.Config{Name: "base"}, len(alphaDur), 3}, {nowal, len(alphaDur), 3}, {hx.Config{Name: "tinymem", MemTableSize: 16 << 10}, len(alphaDur), 2}, {hx.Config{Name: "base"}, 6, 4}}
 	if c.Thorough() {
-		plans = []plan{{hx.Config{Name: "base"}, len(alphaDur), 4}, {hx.Config{Name: "base"}, 8, 5}, {hx.Config{Name: "tinymem", MemTableSize: 16 << 10}, len(alphaDur), 3}}
+		plans = []plan{{hx.Config{Name: "base"}, len(alphaDur), 4}, {nowal, len(alphaDur), 4}, {hx.Config{Name: "base"}, 8, 5}, {hx.Config{Name: "tinymem", MemTableSize: 16 << 10}, len(alphaDur), 3}}
 	}
 	for _, p := range plans {
 		cfg, d, k := p.cfg, p.d, p.k
